@@ -568,6 +568,7 @@ def run(M, rec, tier, seed, k, n):
         if it % 4 == 0:
             symbolic_turn_rates(M, rec, rng, g, ("SX", "MX")[(it // 4) % 2])
     networks_sharing_nodes(M, rec, rng, 40 if tier == "quick" else 400)
+    W.preallocated_buffers(M, rec, rng, PROP, 24 if tier == "quick" else 240, edit_turnrates=True, what="a network whose turn rates (NumPy arrays) are rewritten in place")
     W.complex_step_turn_rates(M, rec, rng, PROP, 30 if tier == "quick" else 300, "shares")
     turning_counts_of_a_narrow_type(M, rec, rng, 16 if tier == "quick" else 160)
 
